@@ -30,10 +30,10 @@ REACH = {"quick": {"default-yielding-group": 300, "form:vector": 5000, "form:gro
 
 ACCEPT = {
     "all": ["bool", "int", "float", "str"], "any": ["bool", "int", "float", "str"],
-    "count": ["bool", "int", "float", "str", "date", "datetime", "timedelta"], "count_unique": ["bool", "int", "float", "str", "date", "datetime", "timedelta"],
-    "first": ["bool", "int", "float", "str", "date", "datetime", "timedelta"], "last": ["bool", "int", "float", "str", "date", "datetime", "timedelta"],
-    "nth": ["bool", "int", "float", "str", "date", "datetime", "timedelta"], "mode": ["bool", "int", "float", "str", "date", "datetime", "timedelta"],
-    "min": ["bool", "int", "float", "date", "datetime", "str", "timedelta"], "max": ["bool", "int", "float", "date", "datetime", "str", "timedelta"],
+    "count": ["bool", "int", "float", "str", "date", "datetime", "timedelta", "datetime_ns"], "count_unique": ["bool", "int", "float", "str", "date", "datetime", "timedelta", "datetime_ns"],
+    "first": ["bool", "int", "float", "str", "date", "datetime", "timedelta", "datetime_ns"], "last": ["bool", "int", "float", "str", "date", "datetime", "timedelta", "datetime_ns"],
+    "nth": ["bool", "int", "float", "str", "date", "datetime", "timedelta", "datetime_ns"], "mode": ["bool", "int", "float", "str", "date", "datetime", "timedelta", "datetime_ns"],
+    "min": ["bool", "int", "float", "date", "datetime", "str", "timedelta", "datetime_ns"], "max": ["bool", "int", "float", "date", "datetime", "str", "timedelta", "datetime_ns"],
     "mean": ["bool", "int", "float"], "median": ["bool", "int", "float"], "quantile": ["bool", "int", "float"],
     "std": ["bool", "int", "float"], "var": ["bool", "int", "float"], "sum": ["bool", "int", "float"],
 }
